@@ -20,12 +20,12 @@ from saml2_tophat import sigver, saml, samlp, class_name, BINDING_HTTP_POST
 import xmlsec_core
 
 CLAIM = {
-    "text": "Coq theorems (Props/C20.v) for an ARBITRARY tool (every theorem quantifies over all tool results: not startable, killed by signal, any stdout/stderr/output-file content, undecodable bytes): success is recognised only by a line that is exactly OK with no OK/FAIL line before it; if no invocation made for the candidate certificates reports success the signature check raises; signing/encryption return only a started, unsignalled run's own non-empty output file, never the input; decrypt_keys returns a real tool output or the unchanged ciphertext. Tie to the code: scripted-Popen correspondence of every backend function and of _check_signature against the model, and a fault-mode x site x position enumeration through the real SP/IdP/metadata entry points judged by the property.",
+    "text": "Coq theorems (Props/C20.v) for an ARBITRARY tool (every theorem quantifies over all tool results: not startable, killed by signal, any stdout/stderr/output-file content, undecodable bytes): success is recognised only by a line that is exactly OK with no OK/FAIL line before it; if no invocation made for the candidate certificates reports success the signature check raises - whatever only_valid_cert and the certificate validation say (C20_verify; the library before fix 0b54cc6b returned normally with only_valid_cert on: C20_verify_before_fix_refuted, C20_verify_before_fix_partial); signing/encryption return only a started, unsignalled run's own non-empty output file, never the input; decrypt_keys returns a real tool output or the unchanged ciphertext. Tie to the code: scripted-Popen correspondence of every backend function and of _check_signature (random tool triples and the complete table catalogue^3 x only_valid_cert x certificate-validation verdict) against the model, and a fault-mode x site x position enumeration through the real SP/IdP/metadata entry points judged by the property.",
     "note": "Trusted: Coq kernel + vm_compute; hand-written model of sigver.py's tool handling tied to the code by the correspondence units; the scripted/stand-in tool (real xmlsec1 is not installed); OS process semantics (exit status, signals) are exercised only through the real-process sample. The step from 'signature check raises / ciphertext unchanged' to 'message rejected / no identity' is carried by the end-to-end fault enumeration (and by the C02 pipeline model), not by a C20 theorem.",
     "technique": "machine-checked proof (Coq, tool universally quantified) + scripted-tool correspondence + fault enumeration on the implementation",
 }
 TRUSTED = [
-    "modelled: parse_xmlsec_output, _run_xmlsec, validate_signature, sign_statement, encrypt_assertion, decrypt, decrypt_keys, the certificate loop and final test of _check_signature (sigver.py); str.splitlines is re-implemented in Gallina",
+    "modelled: parse_xmlsec_output, _run_xmlsec, validate_signature, sign_statement, encrypt_assertion, decrypt, decrypt_keys, the certificate loop and final tests of _check_signature (sigver.py, as repaired by 0b54cc6b: not verified => SignatureError whatever only_valid_cert, then certificate validation); str.splitlines is re-implemented in Gallina",
     "the scripted Popen / stand-in tool (harness/tools/xmlsec_core.py) replaces xmlsec1, which is not installed",
     "the pipeline consequence (failed check => response/request/metadata rejected, undecrypted => no identity) is checked by fault enumeration on the implementation, not proved here",
 ]
@@ -181,13 +181,27 @@ def unit_backend(ctx):
                 else:
                     rs = (rs + [gen_tool(ctx.rng) for _ in range(3)])[:3]
                     Scripted.script = [dict(r) for r in rs]
-                    got = _call(sec._check_signature, xml, item, class_name(item), xml)
+                    # only_valid_cert on / off (the library must not let a valid certificate stand in for a signature
+                    # that verifies under none: fix 0b54cc6b) x certificate validation answering True / False
+                    ovc = ctx.rng.random() < 0.5
+                    cv = ctx.rng.random() < 0.75
+                    real_verify = sec.cert_handler.verify_cert
+                    sec.cert_handler.verify_cert = lambda cert_file, _cv=cv: _cv
+                    try:
+                        got = _call(sec._check_signature, xml, item, class_name(item), xml, only_valid_cert=ovc)
+                    finally:
+                        sec.cert_handler.verify_cert = real_verify
                     got = True if not isinstance(got, Exn) else got
-                    model_in = clist(rs, coq_tool)
+                    model_in = "(%s, %s, %s)" % (clist(rs, coq_tool), cbool(ovc), cbool(cv))
+                    ctx.count("backend:check_signature:only_valid_cert=%s:cert_valid=%s" % (ovc, cv))
                     if got is True and not any(_reports_success(r) for r in rs):
-                        ctx.oracle_fail("check-signature-ok-without-success",
-                                        "_check_signature returned normally although no tool run reported success",
-                                        {"unit": "backend_check_signature", "tools": [_show_tool(r) for r in rs]})
+                        ctx.oracle_fail("check-signature-ok-without-success:only_valid_cert=%s" % ovc,
+                                        "_check_signature(only_valid_cert=%s) returned normally although no tool run reported success" % ovc,
+                                        {"unit": "backend_check_signature", "tools": [_show_tool(r) for r in rs], "only_valid_cert": ovc, "cert_valid": cv})
+                    if got is True and not cv:
+                        ctx.oracle_fail("check-signature-ok-with-invalid-certificate:only_valid_cert=%s" % ovc,
+                                        "_check_signature returned normally although certificate validation refused the certificate",
+                                        {"unit": "backend_check_signature", "tools": [_show_tool(r) for r in rs], "only_valid_cert": ovc, "cert_valid": cv})
             impl = got
             per[op].append(dict(id=i, coq=model_in, impl=impl, show={"op": op, "tools": [_show_tool(r) for r in rs]}))
             if any(_nontrivial(r) for r in rs):
@@ -195,6 +209,41 @@ def unit_backend(ctx):
             ctx.count("backend:%s:%s" % (op, impl.name if isinstance(impl, Exn) else "returns"))
             if i < 5:
                 ctx.sample(dict(unit="backend_" + op, tools=[_show_tool(r) for r in rs], outcome=impl if not isinstance(impl, str) else impl[:40]))
+        # _check_signature, structured: every triple of tool behaviours from a small catalogue (one run per candidate
+        # certificate) x only_valid_cert x certificate validation.  In particular: NO run verifies, only_valid_cert = True,
+        # certificate valid - the library must raise SignatureError (before fix 0b54cc6b it returned normally)
+        cat = [{"kind": "ran", "rc": 0, "out": b"", "err": b"OK\n", "outfile": None},
+               {"kind": "ran", "rc": 1, "out": b"", "err": b"FAIL\n", "outfile": None},
+               {"kind": "ran", "rc": 1, "out": b"", "err": b"", "outfile": None},
+               {"kind": "ran", "rc": 0, "out": b"", "err": b"everything is OK here\n", "outfile": None}]
+        if not ctx.quick:
+            cat += [{"kind": "ran", "rc": -9, "out": b"", "err": b"OK\n", "outfile": None}, {"kind": "nostart"}]
+        j = 0
+        for rs in itertools.product(cat, repeat=3):
+            for ovc, cv in itertools.product([False, True], repeat=2):
+                Scripted.script = [dict(r) for r in rs]
+                real_verify = sec.cert_handler.verify_cert
+                sec.cert_handler.verify_cert = lambda cert_file, _cv=cv: _cv
+                try:
+                    got = _call(sec._check_signature, xml, item, class_name(item), xml, only_valid_cert=ovc)
+                finally:
+                    sec.cert_handler.verify_cert = real_verify
+                got = True if not isinstance(got, Exn) else got
+                j += 1
+                per["check_signature"].append(dict(id="s%d" % j, coq="(%s, %s, %s)" % (clist(list(rs), coq_tool), cbool(ovc), cbool(cv)), impl=got,
+                                                   show={"op": "check_signature", "tools": [_show_tool(r) for r in rs], "only_valid_cert": ovc, "cert_valid": cv}))
+                ctx.nontriv(("check_signature", [_show_tool(r) for r in rs], ovc, cv))
+                none_ok = not any(_reports_success(r) for r in rs)
+                ctx.count("check_signature_table:%s:only_valid_cert=%s:cert_valid=%s:%s" % (
+                    "none-verifies" if none_ok else "one-verifies", ovc, cv, got.name if isinstance(got, Exn) else "returns"))
+                if got is True and none_ok:
+                    ctx.oracle_fail("check-signature-ok-without-success:only_valid_cert=%s" % ovc,
+                                    "_check_signature(only_valid_cert=%s) returned normally although no tool run reported success" % ovc,
+                                    {"unit": "backend_check_signature", "tools": [_show_tool(r) for r in rs], "only_valid_cert": ovc, "cert_valid": cv})
+                if got is True and not cv:
+                    ctx.oracle_fail("check-signature-ok-with-invalid-certificate:only_valid_cert=%s" % ovc,
+                                    "_check_signature returned normally although certificate validation refused the certificate",
+                                    {"unit": "backend_check_signature", "tools": [_show_tool(r) for r in rs], "only_valid_cert": ovc, "cert_valid": cv})
     finally:
         env.tool_inprocess(True)
     ctx.correspond("backend_validate", "Model.Sigver", "fun r => show_bool_result (validate_signature r)", "tool_result", per["validate"])
@@ -203,7 +252,8 @@ def unit_backend(ctx):
     ctx.correspond("backend_decrypt_keys", "Model.Sigver", "fun c => show_str_result (decrypt_keys (fst c) (snd c))",
                    "(str * list tool_result)", per["decrypt_keys"], shard=40)
     ctx.correspond("backend_check_signature", "Model.Sigver",
-                   "fun rs => show_unit_result (check_signature_runs false rs false true)", "(list tool_result)", per["check_signature"])
+                   "fun c : list tool_result * bool * bool => match c with (rs, ovc, cv) => show_unit_result (check_signature_runs false rs ovc cv) end",
+                   "(list tool_result * bool * bool)", per["check_signature"])
 
 
 def _show_tool(r):
